@@ -44,7 +44,7 @@ class CbmcResult:
 
 
 def verify(ctext, workdir, name, entry='harness', enforce=None, replace=(), loop_contracts=False,
-           backend='cvc5', timeout=120, flags=(), unwind=None, want_trace=True):
+           backend='cvc5', timeout=120, flags=(), unwind=None, want_trace=True, object_bits=12):
     """Run the chain on C text.  Returns CbmcResult."""
     os.makedirs(workdir, exist_ok=True)
     base = os.path.join(workdir, name)
@@ -77,7 +77,7 @@ def verify(ctext, workdir, name, entry='harness', enforce=None, replace=(), loop
             res.note = 'goto-instrument failed: ' + out[-800:]
             return res
         gb = base + '.b.gb'
-    cmd = ['cbmc', gb, '--object-bits', '12'] + list(flags)
+    cmd = ['cbmc', gb] + (['--object-bits', str(object_bits)] if object_bits else []) + list(flags)
     if backend == 'cvc5':
         cmd.append('--cvc5')
     elif backend == 'z3':
